@@ -232,6 +232,37 @@ pub fn make_spec(pool: &Pool, ix: &PoolIndex, seed: u64, kind: RunKind, allow_in
     // long histories: half of them concentrate on one evaluator, so that per-evaluator state (a bounded cache,
     // a growing buffer) sees thousands of distinct calls; the hot-expression theme is mostly off there
     let focus: Option<Ev> = if total_calls_long > 0 && r.chance(0.5) { Some(*r.pick(&ALL_EV)) } else { None };
+    // long histories: 40% of them draw every call from a small working set (an application re-evaluates a bounded set
+    // of formulas), so that each formula is seen many times: adaptive state that switches on after N sightings,
+    // per-formula caches at capacity, aliases that go stale on eviction. Whole sibling groups go in together.
+    let working_set: Vec<u32> = if total_calls_long > 0 && r.chance(0.4) {
+        let k = [60usize, 150, 300, 600][r.below(4)];
+        let mut ws: Vec<u32> = Vec::with_capacity(k + 16);
+        let mut guard = 0;
+        while ws.len() < k && guard < k * 20 {
+            guard += 1;
+            if !pool.sib_groups.is_empty() && r.chance(0.15) {
+                for id in r.pick(&pool.sib_groups).clone() {
+                    ws.extend(pool.by_expr[id as usize].iter().copied());
+                }
+                continue;
+            }
+            let c = r.below(pool.entries.len());
+            let e = &pool.entries[c];
+            if matches!(e.oracle, Outcome::Panic(_)) && !f2 {
+                continue;
+            }
+            if let Some(fe) = focus {
+                if e.call.ev != fe && r.chance(0.8) {
+                    continue;
+                }
+            }
+            ws.push(c as u32);
+        }
+        ws
+    } else {
+        Vec::new()
+    };
     let hot: Vec<u32> = if total_calls_long > 0 && r.chance(0.7) { Vec::new() } else { hot };
     let time_scale: i64 = [10_000_000i64, 100_000_000, 1_000_000_000, 5_000_000_000, 30_000_000_000, 300_000_000_000, 3_600_000_000_000, 86_400_000_000_000][r.below(8)];
     let mut clients: Vec<Vec<u32>> = Vec::new();
@@ -257,6 +288,10 @@ pub fn make_spec(pool: &Pool, ix: &PoolIndex, seed: u64, kind: RunKind, allow_in
         };
         let mut calls: Vec<u32> = Vec::with_capacity(ncalls);
         while calls.len() < ncalls {
+            if !working_set.is_empty() {
+                calls.push(*r.pick(&working_set));
+                continue;
+            }
             if let Some(b) = bucket {
                 if r.chance(0.75) {
                     calls.push(*r.pick(&ix.fn_buckets[b].2));
